@@ -122,6 +122,17 @@ def run(tier, seed, opens):
                     sp = spec_bech(m)
                     check('addr_bech32_to_pubkeyhash', addr_bech32_to_pubkeyhash, m, sp, lambda r: r)
                     check('deserialize_address', deserialize_address, m, sp, lambda r: r['public_key_hash_bytes'])
+        # every witness version 0..16 with the right AND the wrong checksum constant (BIP350: v0 <-> Bech32, v1..16 <-> Bech32m)
+        for hrp in sorted(hrps)[:3]:
+            for witver in range(17):
+                prog = list(bytes(rng.getrandbits(8) for _ in range(32 if witver != 0 else rng.choice([20, 32]))))
+                for const in (1, b32.BECH32M_CONST):
+                    data = [witver] + b32.convertbits(prog, 8, 5)
+                    pm = b32.polymod(b32.hrp_expand(hrp) + data + [0] * 6) ^ const
+                    m = hrp + '1' + ''.join(b32.CHARSET[d] for d in data + [(pm >> 5 * (5 - i)) & 31 for i in range(6)])
+                    sp = spec_bech(m)
+                    check('addr_bech32_to_pubkeyhash', addr_bech32_to_pubkeyhash, m, sp, lambda r: r)
+                    check('deserialize_address', deserialize_address, m, sp, lambda r: r['public_key_hash_bytes'])
         # WIF and extended keys (bitcoin + one other network)
         for net in ('bitcoin', 'litecoin'):
             k = Key(rng.randrange(1, 2 ** 255), network=net, compressed=rng.random() < 0.5)
